@@ -15,7 +15,7 @@ func init() {
 		ID:          "C07",
 		Run:         runC07,
 		MinObl:      40,
-		Explanation: "Decided: R1 expiry guards — every module implementation of Validate{AccessToken,AuthorizeCode,RefreshToken,DeviceCode,UserCode} reaches a success exit only with ¬(IsZero(exp) ∧ Before(RequestedAt+lifespan_K, now)) ∧ ¬(¬IsZero(exp) ∧ Before(exp, now)) where exp = GetExpiresAt(session, K) for the token type K the method is named for and lifespan_K its configuration getter (refresh: a zero expiry means unlimited); the expiry exit derives from ErrTokenExpired / ErrDeviceExpiredToken; JWT: the JWT access-token validator returns Claims.Valid() after a successful decode, MapClaims.Valid returns nil only if VerifyExpiresAt/IssuedAt/NotBefore(now) held, and the small comparators return now<=exp, now>=iat, now>=nbf; R2 writer/reader agreement: every token type with a SetExpiresAt(K, ·) writer in the module has a reader in this table that passed (par_context: the authorization endpoint's PAR continuation); R3 lifespan keys: every SetExpiresAt(K, now+d) with d from GetEffectiveLifespan(client, G, K', fallback) has K==K', fallback = the configuration getter of K and G = the grant constant of the enclosing handler type (frozen table); refresh-token writers are guarded by d > -1; in the per-client lifespan selector each of the 12 ClientLifespanConfig fields is returned only under the (grant, token type) pair it is declared for; R4 advertised lifetime: every SetExpiresIn / expires_in parameter derives from GetExpiresAt(session, access_token) − now or the same effective lifespan, the JWT exp claim is GetExpiresAt(session, token type), device expires_in derives from the stored user_code expiry, PAR expires_in from the stored expiry's lifespan; R5 JWT assertions: client assertions and JWT-bearer grants succeed only with Claims.Valid()==nil / the exp claim checked against now. NOT decided: numeric agreement of expires_in with wall-clock time, boundary seconds, what now is.",
+		Explanation: "Decided: R1 expiry guards — every module implementation of Validate{AccessToken,AuthorizeCode,RefreshToken,DeviceCode,UserCode} reaches a success exit only with ¬(IsZero(exp) ∧ Before(RequestedAt+lifespan_K, now)) ∧ ¬(¬IsZero(exp) ∧ Before(exp, now)) where exp = GetExpiresAt(session, K) for the token type K the method is named for and lifespan_K its configuration getter (refresh: a zero expiry means unlimited); the expiry exit derives from ErrTokenExpired / ErrDeviceExpiredToken; JWT: the JWT access-token validator returns Claims.Valid() after a successful decode, MapClaims.Valid returns nil only if VerifyExpiresAt/IssuedAt/NotBefore(now) held, and the small comparators return now<=exp, now>=iat, now>=nbf; R2 writer/reader agreement: every token type with a SetExpiresAt(K, ·) writer in the module has a reader in this table that passed (par_context: the authorization endpoint's PAR continuation); R3 lifespan keys: every SetExpiresAt(K, now+d) with d from GetEffectiveLifespan(client, G, K', fallback) has K==K', fallback = the configuration getter of K and G = the grant constant of the enclosing handler type (frozen table); refresh-token writers are guarded by d > -1; in the per-client lifespan selector each of the 12 ClientLifespanConfig fields is returned only under the (grant, token type) pair it is declared for; R4 advertised lifetime: every SetExpiresIn / expires_in parameter derives from GetExpiresAt(session, access_token) − now or the same effective lifespan, the JWT exp claim is GetExpiresAt(session, token type), device expires_in derives from the stored user_code expiry, PAR expires_in from the stored expiry's lifespan; R5 JWT assertions: client assertions and JWT-bearer grants succeed only with Claims.Valid()==nil / the exp claim checked against now. R4 (builder) every implementation of JWTClaimsContainer.With installs its expiry argument into ExpiresAt on every path; R6 after a storage lookup Validate{AccessToken,RefreshToken,DeviceCode} judge the request the store returned, not the incoming request (documented exception: the authorization-code handler, whose issue phase re-validates with the stored session installed); R7 every SetExpiresAt(kind) on a request's session precedes the storage call that persists the credential of that kind. NOT decided: numeric agreement of expires_in with wall-clock time, what now is.",
 	})
 }
 
@@ -56,6 +56,7 @@ func runC07(c *Ctx) {
 	c07R5(c)
 	c07ValidatedObject(c)
 	c07StampBeforePersist(c)
+	c07StampBase(c)
 }
 
 // notExpired: the path carries the literal "t is not before now" for term t.
@@ -401,6 +402,15 @@ func c07R2(c *Ctx, readers map[string]bool) {
 	ws := c.expiryWriters()
 	if len(ws) < 5 {
 		c.RoleUnmatched(rule, "expiry-writers", fmt.Sprintf("at least 5 token types with a SetExpiresAt writer; found %d", len(ws)))
+	}
+	// ... and the converse: a kind whose expiry is enforced on the consumption path is stamped by
+	// someone (a writer that stamps another kind leaves the reader comparing a zero time, which the
+	// readers treat as "no expiry")
+	for _, k := range sortedKeys(readers) {
+		if !readers[k] {
+			continue
+		}
+		c.Check(len(ws[k]) > 0, rule, "writer-reader", nil, "writer-for:"+k, "every token type whose expiry is enforced has a SetExpiresAt writer in the module", fmt.Sprintf("the expiry of %q is read and enforced but nothing writes it", k), nil)
 	}
 	for k, sites := range ws {
 		c.Check(readers[k], rule, "writer-reader", nil, "reader-for:"+k, "every token type whose expiry is written has a reader that compares it with now and guards a fail exit", fmt.Sprintf("expiry of %q is written (%s) but no reader enforces it", k, strings.Join(sites, ", ")), nil)
@@ -957,5 +967,55 @@ func c07StampBeforePersist(c *Ctx) {
 	}
 	if n < 3 {
 		c.RoleUnmatched(rule, "stamp-sites", fmt.Sprintf("at least 3 handler functions stamping an expiry and persisting; found %d", n))
+	}
+}
+
+// C07.R8 — every expiry stamped by a handler is "now + a lifespan": the base of
+// the addition is the current time, not another stored instant (stamping
+// "user-code expiry + lifespan" doubles the lifetime while expires_in still
+// advertises one lifespan).
+func c07StampBase(c *Ctx) {
+	const rule = "C07.R8"
+	n := 0
+	for _, en := range c.allEntries() {
+		if en.role == "endpoint" || !c.P.RefsMethod(en.fn, 3, ".SetExpiresAt") {
+			continue
+		}
+		cfg := en.cfg
+		base := cfg.Inline
+		if base == nil {
+			base = defaultInline
+		}
+		cfg.Inline = c.orRefs(c.storageReaching(base), base, ".SetExpiresAt")
+		ex := c.Explore(en.fn, cfg, en.tag+"-storage-stamp")
+		if !c.complete(ex, rule, en.role, en.fn) {
+			continue
+		}
+		ok, m := true, 0
+		var w *Path
+		why := ""
+		for _, p := range ex.Paths {
+			for _, e := range p.Calls(".SetExpiresAt") {
+				if e.Recv == nil || !e.Recv.IsCall(".GetSession") {
+					continue
+				}
+				m++
+				v := e.Arg(1)
+				for v.IsCall(".Round", ".Truncate", ".UTC") && len(v.Args) >= 1 {
+					v = v.Args[0]
+				}
+				if !(v.IsCall(".Add") && len(v.Args) == 2 && mentionsNow(v.Args[0]) && !v.Args[0].Mentions(func(s *Term) bool { return s.IsCall(".GetExpiresAt") })) {
+					ok, w = false, p
+					why = fmt.Sprintf("%s (%s) stamps %s: not the current time plus a lifespan", e.Name, c.P.Pos(e.Instr.Pos()), clip(e.Arg(1).Pretty(), 100))
+				}
+			}
+		}
+		if m > 0 {
+			n++
+			c.Check(ok, rule, en.role, en.fn, "stamp-is-now-plus-lifespan", "every expiry a handler writes into a session is the current time plus a duration", why, w)
+		}
+	}
+	if n < 5 {
+		c.RoleUnmatched(rule, "stamp-sites", fmt.Sprintf("at least 5 handler functions stamping an expiry; found %d", n))
 	}
 }
